@@ -39,6 +39,12 @@ $(B)/sim/%.o: sim/%.cc
 	@mkdir -p $(dir $@)
 	$(CXX) $(SIMFLAGS) -MMD -MP -c $< -o $@
 
+# the simulated heap reads block headers inside poisoned red zones: never instrumented
+SIMHEAP_DEF_san := -DVSIM_SAN=1
+$(B)/sim/simheap.o: sim/simheap.cc
+	@mkdir -p $(dir $@)
+	$(CXX) -std=c++17 -DNDEBUG -O1 -g1 -fno-builtin -fno-tree-loop-distribute-patterns -fno-omit-frame-pointer $(SIMHEAP_DEF_$(FLAVOR)) -Isim -Wall -MMD -MP -c $< -o $@
+
 $(B)/vsim: $(LIBOBJS) $(SIMOBJS)
 	$(CXX) $(OPT) -o $@ $(SIMOBJS) $(LIBOBJS) -lpthread
 
